@@ -205,7 +205,7 @@ def expand_ops(sym, op, N, maxlen=3):
         check(got == exp, 'unpackdict', got, exp)
     else:
         texts = [sym.enumstr('t%d' % i, maxlen, ALPHA) for i in range(n)]
-        rows = [['a%d' % i, texts[i], 'c%d' % i] for i in range(n)]
+        rows = [[(texts[i] if sym.flag('same%d' % i) else 'a%d' % i), texts[i], 'c%d' % i] for i in range(n)]
         table = [['a', 'b', 'c']] + rows
         if op == 'capture':
             got = [tuple(r) for r in petl.capture(table, 'b', '([ab])(.?)', ['p', 'q'], include_original=inc,
